@@ -35,6 +35,10 @@ func runC05(c *Ctx) {
 	checkRebuildOrder(c, "R05b")
 	c.Rule("R05f", ruleTextGeneratedSkipped, 1)
 	checkGeneratedSkipped(c, "R05f")
+	c.Rule("R05g", ruleTextSkipFKsMonotone, 1)
+	checkSkipFKsMonotone(c, "R05g")
+	c.Rule("R05h", ruleTextSqliteBegin, 1)
+	checkSqliteBeginOwner(c, "R05h")
 	checkAlterable(c, "R05c")
 }
 
